@@ -120,7 +120,7 @@ func takeSnap(r *rib.RIB) (*snap, error) {
 	if err != nil {
 		return nil, err
 	}
-	return &snap{st: st, held: r.VerifPending(), counts: fmt.Sprint(r.VerifRefCounts())}, nil
+	return &snap{st: st, held: r.VerifPendingOps(), counts: fmt.Sprint(r.VerifRefCounts())}, nil
 }
 
 // buildOp reconstructs the operation of a case from its recipe.
@@ -269,9 +269,12 @@ func runCase(c Case) *ev.Verdict {
 		}
 	}
 	accepted := len(own) == 1 && own[0] == spb.AFTResult_RIB_PROGRAMMED
-	_, nowHeld := after.held[id]
-	_, wasHeld := before.held[id]
-	heldNow := nowHeld && !wasHeld
+	hNow, nowHeld := after.held[id]
+	hWas, wasHeld := before.held[id]
+	// A mutation can set the operation's id to that of an operation that is
+	// already held (id reuse, which the property does not speak about): the
+	// operation is then held in its place, visible as a changed payload.
+	heldNow := nowHeld && (!wasHeld || hNow != hWas)
 	rejected := ended || (len(own) == 1 && own[0] == spb.AFTResult_FAILED)
 	if !ended && len(own) == 0 && !heldNow {
 		v.Fail("C12/unanswered", "%s %s: neither answered, nor held, nor did the RPC end (responses %v)", c.Class, c.Text, rs)
